@@ -1,5 +1,5 @@
 /-
-  C21 — External references are never silently left unresolved.   (partial)
+  C21 — External references are never silently left unresolved.   (both halves proved; source level for single files)
   Proved: after pass 1 every relocation entry names a label that is external in the final label table (so entries are
   created independently of whether the `.external` comes before or after the `.fill`, fix F11, and dropped for local
   labels); the object file keeps its symbol table whenever an external label is declared, with or without debug
@@ -13,13 +13,23 @@
   Proved for the second half (`link_fills_external`, Lemmas/LinkPatch.lean): when file A holds the relocation entry `(A, K)` of
   an external `K` and file B defines `K` at `V`, the symbol-table part of `link` can only succeed with an image that holds `V`
   at `A` (the label fold produces the patch `(A, V)` and no other patch at `A`; patches at other addresses do not disturb it).
-  Not proved: that every `.fill EXT` statement of a program owns a relocation entry at its address (the converse
-  direction of `rel_entries_are_external`); checked by the oracle on generated programs.
+  **Source level** (`source_fill_external_owns_entry`, Lemmas/RelOwn.lean + the parser facts): for ANY source text that parses
+  and assembles (with or without debug symbols), every `.fill LABEL` statement whose label is external at the end of pass 1
+  sits in a block at address `origin + sizes before` and the file's relocation table holds `(that address, NAME)`; the
+  symbol table is kept and loading the file is refused.  (No two memory-occupying statements share an address in an
+  accepted program — pass 2's overlap check — so the entry recorded at the `.fill` is never overwritten; the order of
+  `.external` and `.fill` is irrelevant because the external test is made at the end of the pass.)
+  Together with `link_fills_external` this is the whole property at the level of one link step; nested links are covered
+  by the correspondence check.
 -/
 import Lc3V.Model.Asm
 import Lc3V.Props.C29
 import Lc3V.Lemmas.TwoPass
 import Lc3V.Lemmas.LinkPatch
+import Lc3V.Lemmas.RelOwn
+import Lc3V.Lemmas.ErrSpans
+import Lc3V.Lemmas.ParserDischarge
+import Lc3V.Props.C01
 set_option linter.unusedSimpArgs false
 namespace Lc3V.C21
 open Lc3V
@@ -202,8 +212,86 @@ theorem link_fills_external (at_ bt : SymTab) (blocks : Blocks) (r : ObjFile) (K
       (fun _ => rfl) (fun _ => ⟨rfl, rfl⟩) _ stf pre post K ad bd A hpre hl hext hdef hA hUA (fun r hr => by cases hr) hf
     exact patch_fold A bd.addr stf.relocs blocks hu hcell (fun r hr => h2 r hr) (Or.inr h1)
 
+/-- **every `.fill EXT` owns its relocation entry, for any source text.**  `src` parses to `stmts` and assembles to `obj`; `s` is a
+    `.fill LABEL` statement of the program and the label is external in the pass-1 table `t`.  Then the object file keeps `t`,
+    the program is a sequence of blocks in which `s` sits at `b.a + size(pre)`, the relocation table holds exactly that
+    address with the label's name, and loading the file is refused with `UnresolvedExternal` (machine unchanged). -/
+theorem source_fill_external_owns_entry (src : List Char) (stmts : List Stmt) (dbg : Bool) (obj : ObjFile)
+    (hp : parseAst src = .ok stmts) (ha : assemble stmts (if dbg then some src else none) = .ok obj)
+    (s : Stmt) (hsm : s ∈ stmts) (l : Label) (hs : s.nucleus = .directive (.fill (.label l)))
+    (t : SymTab) (hp1 : pass1 stmts (if dbg then some src else none) = .ok t)
+    (d : SymData) (hd : lookupKey t.labels (upperS l.name) = some d) (hext : d.ext = true)
+    (sim : Sim) (blocks : List (W × List (Option W))) :
+    obj.sym = some t ∧
+    (∃ (before : List Blk) (b : Blk) (after : List Blk) (tail pre post : List Stmt),
+      stmts = (before ++ b :: after).flatMap Blk.stmts ++ tail ∧ b.WF ∧ b.body = pre ++ s :: post ∧
+      (b.a + sizeOf' pre, upperS l.name) ∈ t.rel) ∧
+    obj.externalSymbols ≠ [] ∧ sim.loadObj blocks (!obj.externalSymbols.isEmpty) = (.error .unresolvedExternal, sim) := by
+  obtain ⟨hstr, hsized, _⟩ := parsed_program_lines src stmts hp
+  obtain ⟨blks, tail, t', hprog, hwf, hp1', hexts, hsorted, hall, hmem⟩ := C01.assembled_image_any stmts _ obj ha
+  rw [hp1] at hp1'; cases hp1'
+  subst hprog
+  have htail : ∀ x ∈ tail, isOrigEnd x.nucleus = false := by
+    intro x hx
+    have := hexts.2 x hx
+    cases hn : x.nucleus with
+    | instr i => rfl
+    | directive d => rw [hn] at this; cases d <;> first | rfl | cases this
+  -- pass 2 succeeded: blocks clear of each other; symbol table kept because an external label exists
+  have hmemlab : (upperS l.name, d) ∈ t.labels := lookupKey_mem t.labels _ d hd
+  have hany : t.labels.any (fun e => e.2.ext) = true := List.any_eq_true.mpr ⟨_, hmemlab, hext⟩
+  have hp2 : ∃ st, (blks.flatMap Blk.stmts ++ tail).foldlM (pass2Step t) ⟨[], none⟩ = .ok st ∧ obj.sym = some t := by
+    unfold assemble at ha
+    rw [hp1] at ha
+    dsimp only at ha
+    have hsym := externals_keep_symbol_table _ t _ obj ha hany
+    unfold pass2 at ha
+    cases hf : (blks.flatMap Blk.stmts ++ tail).foldlM (pass2Step t) ⟨[], none⟩ with
+    | error e => rw [hf] at ha; cases ha
+    | ok st => exact ⟨st, rfl, hsym⟩
+  obtain ⟨st2, hf2, hsym⟩ := hp2
+  have hclear := (pass2_accepted_clear t blks [] tail st2 hwf htail ⟨List.Pairwise.nil, fun x hx => by cases hx⟩ hf2).1
+  have hws : ∀ b ∈ blks, ∃ ws, bodyWords t b.a b.body = .ok ws := fun b hb => let ⟨ws, hw, _⟩ := hall b hb; ⟨ws, hw⟩
+  have hmemstmt : ∀ b ∈ blks, ∀ x ∈ b.body, x ∈ blks.flatMap Blk.stmts ++ tail := by
+    intro b hb x hx
+    apply List.mem_append_left
+    exact List.mem_flatMap.mpr ⟨b, hb, by unfold Blk.stmts; simp [hx]⟩
+  have hsz : ∀ b ∈ blks, Sized b.body := fun b hb x hx hn => hsized x (hmemstmt b hb x hx) hn
+  have hss : ∀ b ∈ blks, ShortStrings b.body := fun b hb x hx y hy => hstr x (hmemstmt b hb x hx) y hy
+  -- where `s` sits
+  have hin : ∃ b ∈ blks, s ∈ b.body := by
+    rcases List.mem_append.mp hsm with h1 | h1
+    · obtain ⟨b, hb, hsb⟩ := List.mem_flatMap.mp h1
+      refine ⟨b, hb, ?_⟩
+      unfold Blk.stmts at hsb
+      have hbw := hwf b hb
+      rcases List.mem_append.mp hsb with h2 | h2
+      · have := hexts.1 b hb s h2; rw [hs] at this; cases this
+      · rcases List.mem_cons.mp h2 with h3 | h3
+        · rw [h3, hbw.orig] at hs; cases hs
+        · rcases List.mem_append.mp h3 with h4 | h4
+          · exact h4
+          · simp only [List.mem_singleton] at h4
+            rw [h4, hbw.end_] at hs; cases hs
+    · have := hexts.2 s h1; rw [hs] at this; cases this
+  obtain ⟨b, hb, hsb⟩ := hin
+  obtain ⟨before, after, hblks⟩ := List.append_of_mem hb
+  obtain ⟨pre, post, hbody⟩ := List.append_of_mem hsb
+  subst hblks
+  have hentry := fill_external_owns_entry before b after tail pre post s l _ t hwf htail hbody hs hp1 hws hclear hsz hss d hd hext
+  refine ⟨hsym, ⟨before, b, after, tail, pre, post, rfl, hwf b hb, hbody, hentry⟩, ?_⟩
+  have hne := external_symbols_nonempty obj t hsym _ d hmemlab hext
+  refine ⟨hne, ?_⟩
+  have : (!obj.externalSymbols.isEmpty) = true := by
+    cases hx : obj.externalSymbols with
+    | nil => exact absurd hx hne
+    | cons a r => rfl
+  rw [this]
+  exact load_refused sim blocks
+
 def obligations : List Lean.Name :=
-  [``link_fills_external, ``Lc3V.linkFold_resolves, ``Lc3V.patch_fold, ``rel_entries_are_external, ``fill_records_candidate, ``externals_keep_symbol_table, ``external_symbols_nonempty,
+  [``source_fill_external_owns_entry, ``Lc3V.fill_external_owns_entry, ``Lc3V.rel_survives, ``Lc3V.pass1Step_rel,
+   ``link_fills_external, ``Lc3V.linkFold_resolves, ``Lc3V.patch_fold, ``rel_entries_are_external, ``fill_records_candidate, ``externals_keep_symbol_table, ``external_symbols_nonempty,
    ``load_refused, ``link_resolves, ``patch_sets_word, ``external_declared, ``unresolved_external_refuses_load]
 
 end Lc3V.C21
